@@ -84,4 +84,12 @@ theorem sumTo_offset (shape : List Nat) (d : Nat) (g : Nat → Rat) :
     show sumTo (offset shape d + nfa shape d) g = _
     rw [sumTo_append, ih]; rfl
 
+theorem sumTo_double (n : Nat) (g : Nat → Rat) : sumTo (2 * n) g = sumTo n (fun i => g (2 * i) + g (2 * i + 1)) := by
+  induction n with
+  | zero => rfl
+  | succ n ih =>
+    have : 2 * (n + 1) = 2 * n + 1 + 1 := by ring
+    rw [this]
+    simp only [sumTo, ih]; ring
+
 end Darsia
